@@ -383,6 +383,30 @@ fn alphabet() -> Vec<(Vec<Stmt>, usize, &'static str)> {
     ]
 }
 
+/// A second alphabet: heap values held by globals, aliases between globals, values of a later line stored into an
+/// array of an earlier line, and collections (function returns) in between. No line is planned to fail at run time.
+fn heap_alphabet() -> Vec<(Vec<Stmt>, usize, &'static str)> {
+    use crate::ast::{b, call, id, infix};
+    let asg = |n: &str, e: Expr| Stmt::Expr(Expr::Assign(b(id(n)), b(e)));
+    let f0 = || Stmt::Expr(Expr::Func { name: "f".into(), params: vec![], body: vec![Stmt::Expr(Expr::Int(0))] });
+    let callf = || Stmt::Expr(call("f", vec![]));
+    let s = |n: i64| call("string", vec![Expr::Int(n)]);
+    let idx = |a: &str, i: i64| Expr::Index(b(id(a)), b(Expr::Int(i)));
+    vec![
+        (vec![Stmt::Let("h".into(), Expr::Array(vec![s(1), Expr::Float { m: 5, e: 1 }, Expr::Array(vec![Expr::Float { m: 7, e: 1 }])])), Stmt::Expr(id("h"))], 0, ""),
+        (vec![Stmt::Let("g".into(), id("h")), Stmt::Expr(id("g"))], 0, ""),
+        (vec![Stmt::Expr(Expr::Func { name: "f".into(), params: vec![], body: vec![Stmt::Expr(Expr::Array(vec![s(9)]))] }),
+              Stmt::Let("t".into(), call("f", vec![])), callf(), Stmt::Expr(id("t"))], 0, ""),
+        (vec![f0(), Stmt::Expr(Expr::Assign(b(idx("h", 0)), b(s(42)))), callf(), Stmt::Expr(id("h"))], 0, ""),
+        (vec![f0(), callf(), Stmt::Expr(Expr::Array(vec![id("h"), id("g")]))], 0, ""),
+        (vec![f0(), Stmt::Let("g".into(), Expr::Array(vec![id("h"), id("h")])), callf(), Stmt::Expr(id("g"))], 0, ""),
+        (vec![Stmt::Expr(Expr::Assign(b(idx("h", 1)), b(idx("h", 2)))), f0(), callf(), Stmt::Expr(id("h"))], 0, ""),
+        (vec![f0(), Stmt::Let("w".into(), infix("+", call("lengte", vec![id("h")]), call("lengte", vec![id("g")]))), callf(), Stmt::Expr(id("w"))], 0, ""),
+        (vec![Stmt::Let("h".into(), s(5)), f0(), callf(), Stmt::Expr(id("h"))], 0, ""),
+        (vec![f0(), asg("g", id("t")), callf(), callf(), Stmt::Expr(Expr::Array(vec![id("g"), id("t")]))], 0, ""),
+    ]
+}
+
 pub fn gen_session_alphabet(args: &Args) {
     let out = args.get("out", "/dev/stdout");
     let shard = args.num("shard", 0);
@@ -391,7 +415,8 @@ pub fn gen_session_alphabet(args: &Args) {
     let mut sem = std::fs::File::create(&out).expect("create out");
     let mut src = std::fs::File::create(format!("{out}.src")).expect("create src");
     let mut w = Worker::spawn(Duration::from_secs(30));
-    let al = alphabet();
+    let heap_set = args.get("set", "") == "heap";
+    let al = if heap_set { heap_alphabet() } else { alphabet() };
     let n = al.len();
     let mut sessions: Vec<Vec<usize>> = Vec::new();
     for a in 0..n {
@@ -444,6 +469,11 @@ pub fn gen_session_alphabet(args: &Args) {
                 committed.extend(stmts.clone());
                 out_so_far.extend(line_out);
             } else if !rejected && stage == "run" {
+                if heap_set {
+                    // no line of this alphabet is planned to fail at run time: how much of it completed is not
+                    // known, so the session is validated up to and including this line only
+                    break;
+                }
                 committed.extend(stmts[..*done_on_fail].to_vec());
                 out_so_far.extend(line_out);
             }
